@@ -270,6 +270,7 @@ def replay_doc(prop, seed, stream, run, case, decisions, classes, details,
         "faults": list(case.get("faults", ())),
         "transport_fault": case.get("transport_fault"),
         "schedule": decisions, "stop_after": case.get("stop_after", "execute"),
+        "mode": case.get("mode", "threads"), "configs": case.get("configs"),
         "verdict_classes": classes, "target_class": target_class,
         "details": details[:8],
     }
